@@ -112,7 +112,7 @@ PROPS = {
         'oracles': [BUILDER_ORACLE],
         'side': {'unit': 'side_c20', 'mount': 'src/lib.rs', 'mod': 'verif_side_c20', 'test': 'verif_side_c20', 'iters_quick': 0, 'iters_thorough': 1},
         'bounded_native': [{'unit': 'lexer_spans', 'mount': 'src/lexer.rs', 'mod': 'verif_replay_lexer_spans', 'test': 'verif_oracle_lexer_spans',
-                            'bound': 'every source string of length <= 5 over a 14-symbol alphabet (a 1 space LF CR ` $ { } / " \\ e-acute U+2028) + 70 structured template/regexp programs',
+                            'bound': 'every source string of length <= 5 over a 15-symbol alphabet (a 1 space LF CR ` $ { } / " \\ e-acute U+2028 U+1F600) + 70 structured template/regexp programs',
                             'bound_thorough': 'every source string of length <= 6 over the same alphabet + the structured programs',
                             'env': {'VERIF_LEXER_BOUND': '5'}, 'env_thorough': {'VERIF_LEXER_BOUND': '6'},
                             'obligations': ['lexer_spans/Lexer::next_token/ensures#line_column_consistent_with_source',
